@@ -229,6 +229,16 @@ func (ch c11) Run(c *core.Ctx) {
 				t.tc.Write(pg.Terminate())
 				conn.WaitClosed()
 				ch.termOrder(c, conn, before, fmt.Sprintf("TLS %x", ver))
+				// the end of the stream is announced inside the TLS session too (a closure alert: a record of
+				// type alert, or in TLS 1.3 an encrypted one), as a FIN announces it in plaintext - a bare FIN
+				// is what a client cannot tell from a truncation
+				if all := conn.Out(); before <= len(all) {
+					tail := all[before:]
+					c.Count("terminated_tls_sessions_checked_for_a_closure_alert", 1)
+					if len(tail) < 5 || (tail[0] != 0x15 && tail[0] != 0x17) || tail[1] != 3 {
+						c.Violate("tls-differs", "after Terminate the server ends an upgraded connection without a TLS closure alert", fmt.Sprintf("TLS %x: %d raw bytes after the Terminate: %s", ver, len(tail), hexs(tail[:min(len(tail), 16)])), nil)
+					}
+				}
 				continue
 			}
 			before := conn.WOff()
